@@ -60,6 +60,7 @@ def run(ctx: Ctx) -> None:
     rust_bookkeeping_readers(ctx, rs)
     python_state(ctx, py)
     pce500_bookkeeping(ctx, py)
+    tracing_and_batches(ctx, py)
     from ..memo import memo_findings
     fn = py.func(isa.EMU_PY, "Emulator.decode_instruction")
     for ln, what in memo_findings(py.module(isa.EMU_PY), fn, ("address",), True):
@@ -402,3 +403,64 @@ def pce500_bookkeeping(ctx: Ctx, py: PyProgram) -> None:
                         tracked_locals.add(t.id)
                         work += [y for y in ast.walk(fn) if isinstance(y, ast.Name) and y.id == t.id and isinstance(y.ctx, ast.Load)]
     ctx.instance("C07.3/bookkeeping-decides", "reads of call-depth bookkeeping in the machine emulator: none in a condition, none stored into other machine state", n, 8)
+
+
+def tracing_and_batches(ctx: Ctx, py: PyProgram) -> None:
+    """(a) tracing helpers never read a bus address that has a read handler (reading KIL scans the keyboard and drains its queue);
+    (b) run(n) is n x step() and nothing else, so how a run is split into batches cannot matter;
+    (c) no constructor or step-path function of the emulators has a mutable default argument (one object shared by every instance)."""
+    from ..pyfacts import PyEval, NotConst
+    mod = py.module(PCE500_EMU)
+    cls = py.need_cls(mod, "PCE500Emulator")
+    # ranges with read handlers, from the overlay constructions
+    ranges: list[tuple[int, int, str]] = []
+    for rel in (PCE500_EMU, "pce500/memory.py"):
+        m2 = py.module(rel)
+        for c in ast.walk(m2.tree):
+            if isinstance(c, ast.Call) and unparse(c.func).endswith("MemoryOverlay") and any(k.arg == "read_handler" and not (isinstance(k.value, ast.Constant) and k.value.value is None) for k in c.keywords):
+                kw = {k.arg: k.value for k in c.keywords}
+                try:
+                    lo, hi = PyEval(py, m2).eval(kw["start"]), PyEval(py, m2).eval(kw["end"])
+                except (NotConst, KeyError):
+                    continue
+                if isinstance(lo, int) and isinstance(hi, int):
+                    ranges.append((lo, hi, unparse(kw["read_handler"])))
+    if not ranges:
+        raise AnalysisError("no MemoryOverlay with a read handler and constant bounds found (keyboard I/O window expected)")
+    n = 0
+    for name, fn in cls.methods.items():
+        if not any(k in name for k in ("trace", "emit", "record", "perfetto", "_log")):
+            continue
+        for c in ast.walk(fn):
+            if isinstance(c, ast.Call) and isinstance(c.func, ast.Attribute) and c.func.attr.startswith("read_") and "memory" in unparse(c.func.value) and c.args:
+                n += 1
+                try:
+                    a = PyEval(py, mod).eval(c.args[0])
+                except NotConst:
+                    continue
+                if isinstance(a, int) and not isinstance(a, bool):
+                    for lo, hi, h in ranges:
+                        if lo <= a <= hi:
+                            ctx.violation("C07.3/tracing-reads-device", key_of(PCE500_EMU, f"PCE500Emulator.{name}", f"bus read of {a:#x}"),
+                                          f"tracing helper {name} reads {a:#x} through the bus; that address is served by {h}, whose reads change device state - enabling tracing changes what the program sees", f"{PCE500_EMU}:{c.lineno}")
+    ctx.instance("C07.3/tracing-reads-device", "bus reads in tracing helpers of the machine emulator: none in a window with a read handler", n, 5)
+    # (b)
+    run = cls.methods.get("run")
+    if run is None:
+        raise AnalysisError("PCE500Emulator.run not found")
+    calls = [unparse(c.func) for c in ast.walk(run) if isinstance(c, ast.Call) and unparse(c.func).startswith("self.")]
+    extra = [c for c in calls if c != "self.step"]
+    if extra or "self.step" not in calls:
+        ctx.violation("C07.3/run-is-steps", key_of(PCE500_EMU, "PCE500Emulator.run", "work outside step()"),
+                      f"run() calls {sorted(set(extra)) or 'no step()'} besides step(): run(N+M) and run(N); run(M) perform different work, so the outcome depends on how a run is batched", f"{PCE500_EMU}:{run.lineno}")
+    ctx.instance("C07.3/run-is-steps", "PCE500Emulator.run performs only step() calls", 1, 1)
+    # (c)
+    k = 0
+    for rel in (isa.EMU_PY, PCE500_EMU, "sc62015/pysc62015/stepper.py"):
+        for fn in [x for x in ast.walk(py.module(rel).tree) if isinstance(x, ast.FunctionDef)]:
+            for d in list(fn.args.defaults) + [x for x in fn.args.kw_defaults if x is not None]:
+                k += 1
+                if isinstance(d, (ast.Call, ast.List, ast.Dict, ast.Set, ast.ListComp, ast.DictComp)) and not (isinstance(d, ast.Call) and unparse(d.func) in ("field", "tuple", "frozenset", "int", "float", "str", "bool")):
+                    ctx.violation("C07.3/shared-default", key_of(rel, fn.name, f"default {unparse(d)[:40]}"),
+                                  f"{fn.name}() has the mutable default `{unparse(d)[:60]}`: it is evaluated once, so every call/instance that relies on the default shares one object (state leaks between emulator instances)", f"{rel}:{fn.lineno}")
+    ctx.instance("C07.3/shared-default", "default arguments in the emulator modules: none is a mutable object", k, 20)
